@@ -17,7 +17,7 @@ TIERS = {
 
 OPTS = {
     "C01": {"categories": [("ok", 0.3), ("undefined", 0.1), ("conflict", 0.6)], "p_curved": 0.0, "jitters": [0.0, 0.05, 0.15], "p_path": 0.2},
-    "C02": {"categories": [("ok", 0.6), ("undefined", 0.3), ("conflict", 0.1)], "p_curved": 0.0, "p_multi_source": 0.6, "p_path": 0.4, "p_infeasible": 0.08,
+    "C02": {"categories": [("ok", 0.6), ("undefined", 0.3), ("conflict", 0.1)], "p_curved": 0.05, "p_multi_source": 0.6, "p_path": 0.4, "p_infeasible": 0.08,
             "p_same_expansion": 0.5, "jitters": [0.0, 0.05, 0.15]},
     "C04": {"categories": [("ok", 0.95), ("undefined", 0.0), ("conflict", 0.05)], "p_curved": 0.12, "p_multi_source": 0.3, "p_path": 0.25,
             "p_same_expansion": 0.5, "jitters": [0.0, 0.05, 0.05, 0.15, 0.15, 0.25]},
@@ -44,6 +44,11 @@ def build(seed: int, pid: str, ncfg: int) -> Tuple[Dict[str, Any], List[Dict[str
         geo = P.gen_assembly(rs.sub("geo"), opts)
         geo = P.add_curved(rs.sub("curved"), geo, opts)
         geo = P.place_chops(rs.sub("chops"), geo, opts)
+        if pid == "C02" and geo.get("curved") and len(geo["curved"]) <= 2 and len(geo["blocks"]) <= 4 and rs.sub("arc_as").chance(0.3):
+            # the same arcs, declared (by every configuration) as edges snapped to a parametric circle; the
+            # library measures those by sampling, so only agreement between members and between configurations
+            # is judged for them, which is all the C02 oracles do
+            geo["arc_as"] = "oncurve"
     if pid == "C02" and rs.chance(0.2):
         # patches and merged pairs: vertices on a slave patch are duplicated, which cuts edge families
         # at the merged interface (the reference model takes that into account)
@@ -309,7 +314,8 @@ def task(seed: int, arg: Dict[str, Any]) -> Dict[str, Any]:
     base_counts = None
     base_class = None
     for ci, program in enumerate(programs):
-        scheds = schedules(seed, ci, 2 if program.get("meta", {}).get("shapes") else k)
+        # (shape programs and programs with sampled curve edges are slow: two schedules each)
+        scheds = schedules(seed, ci, 2 if (program.get("meta", {}).get("shapes") or geo.get("arc_as")) else k)
         # sometimes a dictionary from an earlier run is already there: a failed write must leave it alone
         pre = {P.DICT_PATH: "// blockMeshDict written by an earlier run\n"} if (pid == "C02" and h64(seed, "pre") % 3 == 0) else None
         ev = evaluate(pid, program, scheds, pre)
